@@ -485,6 +485,10 @@ def run_sets(rep, sets, npairs, r, harness, driver, stats):
             if typed:
                 adeq_cmds.append([Sym("manifest_adequate"), rtrie_sx(tr), typed])
                 adeq_owner.append((ps, rt))
+    fres = fw.run_model(driver, [[Sym("manifest_frag")] + c[1:] for c in adeq_cmds])
+    for f in fres:
+        for k in (f if isinstance(f, list) else []):
+            stats["fragment"][str(k)] = stats["fragment"].get(str(k), 0) + 1
     _c1 = _cpu()
     ares = fw.run_model(driver, adeq_cmds)
     stats["cpu"]["model_adequate"] = round(_cpu() - _c1, 1)
@@ -610,7 +614,7 @@ def run(rep, tier, seed):
              "validator_reject": 0, "validator_reject_confirmed": 0, "validator_reject_unconfirmed": 0, "pairs": 0,
              "slice_fail": {}, "decisions": {}, "with_reasons": 0, "with_errors": 0, "error_classes": {},
              "entities_full": 0, "entities_slice": 0, "attrs_full": 0, "attrs_slice": 0, "ancestors_slice": 0,
-             "slice_matters": 0, "oracle_fail": 0, "oracle_fail_classes": {}, "corr_diff": 0, "corr_same": 0, "distinct": set()}
+             "fragment": {}, "slice_matters": 0, "oracle_fail": 0, "oracle_fail_classes": {}, "corr_diff": 0, "corr_same": 0, "distinct": set()}
     sets = h_policy_sets(r, len(H_POOL) + (8 if quick else 900))
     # refused stream (hand-written)
     for scope, body, _ in H_REFUSED:
